@@ -61,6 +61,7 @@ def run(ctx):
     ctx.mc("MC_Denote", "MC_Denote_C04_q.cfg" if ctx.quick else "MC_Denote_C04_t.cfg", timeout=3000)
     if not ctx.quick:
         ctx.mc("MC_Denote", "MC_Denote_C04_pod.cfg", timeout=3000)
+    common.random_rows_stage(ctx, "C04")
     allpods = sorted(qa.T.pod_hours)
     basepods = [p for p in qa.PODS if p in qa.T.pod_hours]
     days = list(e2e.all_days())
